@@ -499,8 +499,11 @@ def stage_p(chk, bindir, tier, stats):
             during = got.get("during")
             if during is None or sorted(set(during), key=str) != good or len(during) != 3:
                 desc = f"{q} while index file number {n_release + 1} of the segment is half written: rows (context, k) = {during}; stored: {good}"
+                # rows of the incomplete segment come back next to the correct ones: with a missing cell, or - when the
+                # missing column is the event id - as exact copies that the response writer cannot recognise as duplicates
                 extra = [r for r in (during or []) if r not in good]
-                if during is not None and all(g in during for g in good) and extra and all(c == "" or k is None for (c, k) in extra):
+                if (during is not None and all(g in during for g in good) and len(during) <= 2 * len(good) and len(during) > len(good)
+                        and all(c == "" or k is None for (c, k) in extra)):
                     if chk.classify(["C03-rows-of-incomplete-segment-with-missing-cells"], desc, rep) == "known":
                         stats["p_known_transient"] += 1
                 else:
